@@ -49,7 +49,17 @@ type LoopContract struct {
 	Line       int
 }
 
+type AssertContract struct {
+	When   string // "before" or "after"
+	Anchor string // statement text (prefix, whitespace-squeezed)
+	Clause Clause
+	Line   int
+}
+
 type FuncContract struct {
+	Asserts  []*AssertContract
+	Extern   bool // contract on a function of another module (assumed)
+	Lossless bool // narrowing integer conversions in the body must not lose information
 	Key       string // "Segment.readPtr", "alloc", "Conn.receive$1"
 	ResNames  []string
 	Props     []string
@@ -87,7 +97,7 @@ type ContractFile struct {
 	Lemmas  []*Lemma
 }
 
-var kwRe = regexp.MustCompile(`^(import|option|spec|end|func|props|requires|ensures|assumes|old|inline|noinline|trusted|strict|pure|modifies|loop|invariant|decreases|lemma|axiom|iface)\b`)
+var kwRe = regexp.MustCompile(`^(import|option|spec|end|func|extern|props|requires|ensures|assumes|old|inline|noinline|trusted|strict|pure|modifies|loop|invariant|decreases|assert|lossless|lemma|axiom|iface)\b`)
 var tagRe = regexp.MustCompile(`^\[([A-Za-z0-9_, ]+)\]\s*`)
 var labelRe = regexp.MustCompile(`^([a-zA-Z_][a-zA-Z0-9_]*):\s+`)
 
@@ -179,9 +189,9 @@ func ParseContractFile(path, source string) (*ContractFile, error) {
 			for _, o := range strings.Fields(stripTrail(d.rest)) {
 				cf.Options[o] = true
 			}
-		case "func", "iface":
+		case "func", "iface", "extern":
 			rest := stripTrail(d.rest)
-			fc := &FuncContract{Line: d.line, Iface: d.kw == "iface"}
+			fc := &FuncContract{Line: d.line, Iface: d.kw == "iface", Extern: d.kw == "extern"}
 			if i := strings.Index(rest, "->"); i >= 0 {
 				for _, n := range strings.Split(rest[i+2:], ",") {
 					fc.ResNames = append(fc.ResNames, strings.TrimSpace(n))
@@ -261,6 +271,25 @@ func ParseContractFile(path, source string) (*ContractFile, error) {
 					curLoop.CondText = strings.Trim(strings.TrimSpace(fs[1]), `"`)
 				}
 				cur.Loops = append(cur.Loops, curLoop)
+			case "lossless":
+				cur.Lossless = true
+			case "assert":
+				rest := stripTrail(d.rest)
+				fs := strings.SplitN(rest, " ", 2)
+				if len(fs) != 2 || (fs[0] != "before" && fs[0] != "after") {
+					return nil, fmt.Errorf("%s:%d: assert needs before|after \"stmt\" expr", path, d.line)
+				}
+				r2 := strings.TrimSpace(fs[1])
+				if !strings.HasPrefix(r2, `"`) {
+					return nil, fmt.Errorf("%s:%d: assert needs a quoted statement anchor", path, d.line)
+				}
+				j := strings.Index(r2[1:], `"`)
+				if j < 0 {
+					return nil, fmt.Errorf("%s:%d: unterminated anchor", path, d.line)
+				}
+				ac := &AssertContract{When: fs[0], Anchor: r2[1 : 1+j], Line: d.line}
+				ac.Clause = parseClause(strings.TrimSpace(r2[2+j:]), d.line)
+				cur.Asserts = append(cur.Asserts, ac)
 			case "invariant":
 				if curLoop == nil {
 					return nil, fmt.Errorf("%s:%d: invariant outside loop", path, d.line)
